@@ -290,18 +290,29 @@ func c01lateReplyBody() {
 	for _, r := range reqs {
 		raw = append(raw, r.raw...)
 	}
-	late := []int64{1, 6, 50}[sched.Choose(sched.ClsInput, 3, "milliseconds")]
+	late := []int64{1, 6, 50, 11 * 60 * 1000}[sched.Choose(sched.ClsInput, 4, "milliseconds")]
+	// the first key's slot group has just moved to (or is being migrated to) the late node: its request is redirected
+	redirect := []string{"none", "moved", "ask"}[sched.Choose(sched.ClsInput, 3, "redirection")]
+	switch redirect {
+	case "moved":
+		s.cl.MoveGroup(0, m1)
+	case "ask":
+		s.cl.SetMigrating(0, m1)
+		s.cl.MigrateKey(a)
+	}
 	m1.Stalled = true
 	c := s.NewClient("c0")
 	c.Send(raw)
 	sched.WaitQuiescent()
-	sched.SetQuiet(false)
+	if late < 1000 {
+		sched.SetQuiet(false) // (a node that hangs for minutes: default schedule only, many periodic timers fire)
+	}
 	sched.AdvanceTime(late * int64(time.Millisecond))
 	m1.Stalled = false
 	sched.WaitQuiescent()
 	sched.SetQuiet(true)
-	c01check(s, fmt.Sprintf("pipeline %d, one node answers %d ms late", shape, late), reqs, c)
-	sched.SetOutcome(fmt.Sprintf("%d/%dms", shape, late))
+	c01check(s, fmt.Sprintf("pipeline %d, redirection %s, one node answers %d ms late", shape, redirect, late), reqs, c)
+	sched.SetOutcome(fmt.Sprintf("%d/%dms/%s", shape, late, redirect))
 }
 
 func c01schedulesBody() {
